@@ -76,7 +76,7 @@ Theorem C08_mul_dadda_exact : forall fresh xs ys be s rs s',
 Proof. exact add_mul_dadda_final. Qed.
 
 (* FULL STATEMENT (Wallace): as below with  length rs = mul_len (length xs) (length ys).
-   Proved (for the code repaired by fixes/D27.patch, see Model/ArithMul.v): the product for all widths and
+   Proved (for the code repaired by fixes/D29.patch, see Model/ArithMul.v): the product for all widths and
    length rs <= mul_len; that the final shifted adder returns at least n + m bits, so that equality holds,
    is computed for every width pair <= 6 and checked by the direct oracle on every run.
    On the pinned code the product is WRONG for n = 2, m >= 11 (e.g. 3 * 704 = 1088): empty cells between
